@@ -195,7 +195,7 @@ func buildShared(rt *goja.Runtime, specs []sharedSpec) []goja.Value {
 	return vals
 }
 
-const nRaceStmt = 18
+const nRaceStmt = 20
 
 func genRaceProgram(W *core.Track, nshared int) string {
 	var sb strings.Builder
@@ -238,6 +238,10 @@ func genRaceProgram(W *core.Track, nshared int) string {
 			fmt.Fprintf(&sb, "{ var s = SH[%d], t = SH[%d]; if (typeof s === 'string' && typeof t === 'string') { var c = s + t; out.push(c.length, c.charCodeAt(s.length), (c + c).length, c.slice(s.length - 2, s.length + 2), c === s + t, `${s}|${t}`.length, [s, t].join('').length === c.length, s.concat(t, s).length); } }\n", a, b)
 		case 16:
 			fmt.Fprintf(&sb, "out.push(JSON.stringify({ a: [1, { b: 'x\\u00e9' }], c: null }), JSON.parse('{\"k\":[1,2,{\"z\":\"\\\\u00e9\"}]}').k[2].z, new Date(0).toISOString(), (12345.678).toFixed(2), (255).toString(16), parseFloat('1e3'));\n")
+		case 17: // publish a value created by THIS runtime during the run through the mutex-guarded mailbox
+			fmt.Fprintf(&sb, "{ var s = SH[%d], t = SH[%d]; MB_PUT(typeof s === 'string' && typeof t === 'string' ? [s + t, (s + '|' + t).slice(2), `${t}${s}`, s.toUpperCase(), JSON.stringify([s, t]), s.repeat(2)][%d] : Symbol('mb%d')); }\n", a, b, W.Draw(6), i)
+		case 18: // use whatever another runtime has published so far (schedule-dependent: executed, not recorded)
+			fmt.Fprintf(&sb, "try { var mv = MB_GET(%d); if (typeof mv === 'string') { mv.length; mv.charCodeAt(3); (mv + 'x').length; mv.toUpperCase(); mv === SH[%d]; mv < SH[%d]; new Map([[mv, 1]]).has(mv); mv.indexOf('\\u00e9'); mv.normalize('NFC'); [...mv].length; } else if (typeof mv === 'symbol') { var mo = {}; mo[mv] = 1; String(mv.description); } } catch (emb) { }\n", W.Draw(8), a, b)
 		default:
 			fmt.Fprintf(&sb, "{ var f%d = (function(){ var c = 0; return function(){ return ++c; }; })(); f%d(); out.push(f%d(), [3, 1, 2].sort().join(), Object.keys({ b: 1, a: 2, 1: 3 }).join(), Math.max(1, 2), String(Symbol.iterator)); }\n", i, i, i)
 		}
@@ -250,7 +254,36 @@ type racesim struct {
 	tier string
 }
 
-func runRaceScript(rt *goja.Runtime, prg *goja.Program, shared []goja.Value, times int) (outs []string, errs []string) {
+// raceMailbox is how user code would hand a primitive value from one runtime to another while both run: guarded by a
+// real mutex (that happens-before edge is part of the scenario, not of the scheduler).
+type raceMailbox struct {
+	mu  sync.Mutex
+	box []goja.Value
+}
+
+func (m *raceMailbox) install(rt *goja.Runtime) {
+	rt.Set("MB_PUT", func(call goja.FunctionCall) goja.Value {
+		v := call.Argument(0)
+		if _, isObj := v.(*goja.Object); !isObj {
+			m.mu.Lock()
+			m.box = append(m.box, v)
+			m.mu.Unlock()
+		}
+		return goja.Undefined()
+	})
+	rt.Set("MB_GET", func(call goja.FunctionCall) goja.Value {
+		k := int(call.Argument(0).ToInteger())
+		m.mu.Lock()
+		defer m.mu.Unlock()
+		if len(m.box) == 0 {
+			return goja.Undefined()
+		}
+		return m.box[k%len(m.box)]
+	})
+}
+
+func runRaceScript(rt *goja.Runtime, prg *goja.Program, shared []goja.Value, times int, mb *raceMailbox) (outs []string, errs []string) {
+	mb.install(rt)
 	arr := make([]interface{}, len(shared))
 	for i, v := range shared {
 		arr[i] = v
@@ -296,7 +329,7 @@ func (e *racesim) Run(t *core.Tape, want bool) *core.Result {
 		return res
 	}
 	refRt := goja.New()
-	refOut, refErr := runRaceScript(refRt, refPrg, buildShared(refRt, specs), times)
+	refOut, refErr := runRaceScript(refRt, refPrg, buildShared(refRt, specs), times, &raceMailbox{})
 	for _, e := range refErr {
 		if strings.HasPrefix(e, "GO-PANIC") {
 			res.OutOfScope = "the script crashes the engine when run alone: " + e
@@ -318,6 +351,7 @@ func (e *racesim) Run(t *core.Tape, want bool) *core.Result {
 		sched.dec[i] = uint16(S.Draw(1 << 12))
 	}
 	var wg sync.WaitGroup
+	mailbox := &raceMailbox{}
 	for i := 0; i < ntasks; i++ {
 		sched.tasks = append(sched.tasks, &raceTask{id: i, bt: newBaton()})
 	}
@@ -331,7 +365,7 @@ func (e *racesim) Run(t *core.Tape, want bool) *core.Result {
 			defer wg.Done()
 			tk.bt.wait() // wait to be scheduled for the first time
 			tk.rt = goja.New()
-			tk.out, tk.errs = runRaceScript(tk.rt, prg, shared, times)
+			tk.out, tk.errs = runRaceScript(tk.rt, prg, shared, times, mailbox)
 			if handover {
 				// an Object of another runtime must be rejected
 				func() {
@@ -378,6 +412,7 @@ func (e *racesim) Run(t *core.Tape, want bool) *core.Result {
 	res.Steps = sched.ticks
 	res.Count("goroutine-switches", int64(sched.switches))
 	res.Count("tasks", int64(ntasks))
+	res.Count("values-published-through-mailbox", int64(len(mailbox.box)))
 	for _, sp := range specs {
 		res.Count("shared-"+sp.kind, 1)
 	}
